@@ -91,6 +91,11 @@ CHECKS = {
         technique="TLA+ model of the loader's opcode loop against the record contract (RdbFile.tla / RdbContract.tla) model-checked by TLC for all operation sequences up to length 4-5; operation sequences concretised by an independent RDB writer and parsed by the real Loader, record attributes validated by TLC (RdbTrace.tla), key / type / DUMP payload bytes compared with what the writer put into the file",
         text="TLC checks the opcode loop for every operation sequence (attributes bound to the next key, database tracking, script records, skipped metadata, chunk records); the real Loader is bound by trace validation over generated files covering format versions 3-9, every value type and compact encoding, all length and string forms for values and key names, sizes across the 6/14/32-bit boundaries, streams with consumer groups, module-aux blocks (64-bit ids, float/double), and hashes above the 16 MiB chunk limit, with byte-exact comparison of every payload and the footer check.",
         note="Payload byte fidelity rests on the harness's independent writer (rdbref) which remembers each value's bytes; module values (types 6/7) not generated; pre-version-5 files have no checksum."),
+    "C12": dict(
+        level="model_checking", design="DESIGN.md 4/C12",
+        technique="byte-level TLA+ definition of what a Redis server materialises from a serialised value (RdbValue.tla: all length and string forms, LZF, ziplist, intset, zipmap, quicklist, text and binary scores) and of the tool's encoder; TLC checks Materialise(Encode(v)) = v over boundary values and the file-encoder protocol composed with the C01 loader contract (EncFile.tla); the TLC-enumerated values and generated values in every compact encoding are run through the real EncodeDump / DecodeDump / Encoder / Loader / ObjEntry and every observation is judged by TLC (RdbValueTrace.tla), large payloads and finite-score numerics by a lifted Go reference",
+        text="TLC proves the model round trip for all boundary values (integer-form limits, signs, zeros, spaces, binary, NaN / infinities / negative zero) and all object sequences up to 5-6 objects for the file protocol; the real codecs are bound by replaying TLC's values and by trace validation of thousands of (type, bytes, value) observations covering every compact encoding a server can emit.",
+        note="Finite score numerics and integers beyond 32 bits are decided by the lifted Go reference, not by TLC; sizes are bounded (elements up to 16384, strings up to 70000 bytes)."),
 }
 
 NOT_YET = "check not built yet in this session (work in progress; see DESIGN.md section 7 for the order)"
